@@ -1,2 +1,5 @@
-SPECIFICATION Spec
+SPECIFICATION TSpec
+CONSTANTS
+  Repaired = TRUE
+  Drop = TRUE
 CHECK_DEADLOCK FALSE
